@@ -541,7 +541,8 @@ class IdentityMatrix(PositiveDefiniteMatrix, ImplicitArrayMatrix):
 
     @property
     def diagonal(self) -> NDArray:
-        return np.ones(self.shape[0])
+        # Use scalar (zero-dimensional) array if size implicit so that value broadcasts
+        return np.ones(() if self.shape[0] is None else self.shape[0])
 
     def _construct_array(self) -> NDArray:
         if self.shape[0] is None:
@@ -651,7 +652,8 @@ class ScaledIdentityMatrix(SymmetricMatrix, DifferentiableMatrix, ImplicitArrayM
 
     @property
     def diagonal(self) -> NDArray:
-        return self._scalar * np.ones(self.shape[0])
+        # Use scalar (zero-dimensional) array if size implicit so that value broadcasts
+        return self._scalar * np.ones(() if self.shape[0] is None else self.shape[0])
 
     def _construct_array(self) -> NDArray:
         if self.shape[0] is None:
